@@ -9,7 +9,7 @@
 (***************************************************************************)
 EXTENDS EntityJson, Json
 
-CONSTANT Part          \* 1: rich entities, contexts, API-built data; 2: single attributes, stores, odd trees
+CONSTANT Part          \* 1: contexts, API-built data; 2: single attributes, rich entities, stores, odd trees
 VARIABLES kind, seed, c
 
 LL(x) == <<"long", x>>
@@ -135,7 +135,7 @@ WireEntT(e) == [uid |-> e.uid, attrs |-> e.attrs, tags |-> {<<k, e.tags[k]>> : k
 WireEntV(v) == [uid |-> v.uid, attrs |-> v.attrs, tags |-> v.tags, anc |-> v.anc]
 
 Init == /\ c = <<>>
-        /\ kind \in (IF Part = 1 THEN {"rich", "context", "api"} ELSE {"attr", "store", "odd"})
+        /\ kind \in (IF Part = 1 THEN {"context", "api"} ELSE {"attr", "rich", "store", "odd"})
         /\ \/ kind = "attr" /\ seed \in AttrPool
            \/ kind = "rich" /\ seed \in RichOk \cup EnumAndActionEntities
            \/ kind = "store" /\ seed \in Stores
